@@ -23,3 +23,15 @@ fn main() {
     let code = checks::dispatch(&args);
     std::process::exit(code);
 }
+
+#[cfg(test)]
+mod tests {
+    /// `VERIF_REPLAY=<file> cargo test replay_file` re-executes one recorded case as a plain unit
+    /// test, without any explorer; it fails if the recorded violation reproduces.
+    #[test]
+    fn replay_file() {
+        if let Ok(path) = std::env::var("VERIF_REPLAY") {
+            assert_eq!(crate::checks::replay(&path), 0, "the violation recorded in {path} reproduces");
+        }
+    }
+}
